@@ -190,10 +190,10 @@ def options(rng, name, d, n_classes=2):
     o['init'] = inits[int(rng.integers(len(inits)))]
     o['random_state'] = int(rng.integers(100))
     if r() < 0.5:
-      k = int(rng.integers(1, d + 1))
-      if o['init'] == 'lda':
-        k = min(k, n_classes - 1)
-      o['n_components'] = k
+      o['n_components'] = int(rng.integers(1, d + 1))
+    if o['init'] == 'lda':
+      # documented restriction of the lda init: n_components <= n_classes - 1
+      o['n_components'] = min(o.get('n_components') or d, n_classes - 1, d)
   if name in ('LFDA',):
     o['embedding_type'] = ['weighted', 'orthonormalized', 'plain'][int(rng.integers(3))]
     if r() < 0.5:
